@@ -465,6 +465,10 @@ func (p *printer) expr(e *E) string {
 	case "choice":
 		return fmt.Sprintf("choice(%d)", e.N)
 	case "lib":
+		if e.Fn == "fmt.Sprint" && p.goMode && len(e.Args) == 1 && e.Args[0].Ty != nil && e.Args[0].Ty.K == "ptr" {
+			// goatlang renders a struct reference with its field names, which is Go's %+v
+			return "fmt.Sprintf(\"%+v\", " + p.expr(e.Args[0]) + ")"
+		}
 		if e.Fn == "strconv.Itoa" && p.goMode {
 			return "strconv.Itoa(int(" + p.expr(e.Args[0]) + "))"
 		}
@@ -1224,7 +1228,14 @@ func (f *flat) expr(e *E) int {
 	case "choice":
 		return f.add(map[string]any{"k": "choice", "n": e.N})
 	case "lib":
-		return f.add(map[string]any{"k": "lib", "fn": e.Fn, "args": f.exprs(e.Args)})
+		order := []map[string]any{}
+		if e.Fn == "fmt.Sprint" && len(e.Args) == 1 && e.Args[0].Ty != nil && e.Args[0].Ty.K == "ptr" {
+			// a struct reference rendered as a whole: the field names in declaration order
+			for _, fn := range f.structs[e.Args[0].Ty.Name].Fields {
+				order = append(order, map[string]any{"n": fn, "b": bytesOf(fn)})
+			}
+		}
+		return f.add(map[string]any{"k": "lib", "fn": e.Fn, "args": f.exprs(e.Args), "order": order})
 	}
 	panic("flat: unknown expr " + e.K)
 }
